@@ -11,7 +11,7 @@ fn profiles_env(default: &[&'static str]) -> Vec<&'static str> {
         Ok(s) if !s.is_empty() => {
             let mut v = Vec::new();
             for name in s.split(',') {
-                if name == "tokens" {
+                if name == "tokens" || name == "scale" {
                     continue;
                 }
                 match mc::profiles::ALL.iter().find(|n| **n == name) {
